@@ -1,11 +1,17 @@
 """C05 - a generated molecule is a tree of whole, unmodified copies of the written tokens."""
+import hashlib
+import json
+import random
+
 from . import gencommon as gc
 
 LEVEL = "exploration"
 TECHNIQUE = "deterministic simulation: seeded scheduler as the random generator + residue-partition / isomorphism / tree / sanitisation / mass audit of every returned molecule"
 RULE = ("each run = one generated input (archetype or README/SI string) x one seeded schedule (choice policy x draw policy); "
         "every attach event (kept and discarded work) is audited; distinct = distinct hash of (input text, sequence of "
-        "(decision kind, #options, option taken)); non-trivial = at least 3 decisions with more than one possible outcome")
+        "(decision kind, #options, option taken)); non-trivial = at least 3 decisions with more than one possible outcome; "
+        "3 % of the runs couple two or three separately generated open-ended molecules through MolGen.attach_other instead "
+        "(the attached part then has many residues, which generation itself never passes)")
 ASSUMPTIONS = gc.ASSUMPTIONS_COMMON + [
     "descriptor bonds other than single cannot be generated at all on this tree (fragment SMILES '=CC=' is invalid); they are "
     "exercised by C06's known finding, not here",
@@ -13,17 +19,135 @@ ASSUMPTIONS = gc.ASSUMPTIONS_COMMON + [
 COMPONENTS = gc.COMPONENTS
 PROPS = ("C05",)
 
+# open-ended pieces (one descriptor stays open after generation) for the coupling runs
+COUPLING_PIECES = [
+    "CC{[$][$]CC([$])c1ccccc1[$]}|gauss(%d, 20)|", "OC{[$][$]CCO[$], [$]CC(C)O[$][$]}|uniform(%d, 200)|", "N{[$][$]C(=O)CCCCCN[$][$]}|poisson(%d)|",
+    "F{[$][$]CC(C)(C(=O)OC)[$][$]}|gauss(%d, 5)|", "C{[>][<]CC[>][<]}|gauss(%d, 10)|", "Cl{[>][<]CC([>])C#N[<]}|uniform(%d, 160)|",
+    "[H]{[>][<][Si](C)(C)O[>][<]}|poisson(%d)|", "CC[$]", "OCC[>]",
+]
+# cores with two or three open descriptors: arms are attached one after another
+COUPLING_CORES = ["[$]C([$])[$]", "[$]c1cc([$])cc([$])c1", "[$]CC[$]", "[<]CC(C[<])C[<]", "[<]N(C)[<]", "[$][Si](C)(C)[$]"]
+
 
 def plan(tier):
     return 2400 if tier == "quick" else 40000
 
 
 def spec_from_seed(run_seed, tier):
+    rnd = random.Random(run_seed ^ 0x5C05)
+    if rnd.random() < 0.03:
+        core = rnd.choice(COUPLING_CORES + [None, None])
+        sym = "$" if core is None or "$" in core else ">"  # arms that fit the core's open descriptors ('<' core takes '>' arms)
+        fit = [p for p in COUPLING_PIECES if ("[$]}" in p or p.endswith("[$]")) == (sym == "$")]
+        pieces = [{"text": (p % rnd.choice([60, 90, 140])) if "%d" in p else p, "seed": rnd.randrange(1000)} for p in
+                  (rnd.choice(fit) for _ in range(rnd.choice([2, 2, 3])))]
+        return {"kind": "coupling", "prop": "C05", "core": core, "pieces": pieces, "reverse": rnd.random() < 0.3}
     return gc.make_spec(run_seed, tier, "C05", forced_prob=0.05)
 
 
 def execute(spec):
+    if spec.get("kind") == "coupling":
+        return _execute_coupling(spec)
     return gc.execute(spec, PROPS)
 
 
-shrink_candidates = gc.shrink_candidates
+def _execute_coupling(spec):
+    """Separately generated molecules joined through the public MolGen.attach_other: the product must again be a tree of whole
+    residues -- atoms and bonds of both parts plus exactly one bond, residue graph = both graphs plus exactly one edge."""
+    import networkx as nx
+    import numpy as np
+    from rdkit import Chem
+    from rdkit.Chem import Descriptors
+
+    from .. import boot
+    from ..seams import World
+    from ..simrng import Scheduler, SimAbort
+
+    g = boot.load()
+    world = World(Scheduler(1), embed="stub")
+    viols = []
+    stats = {"runs": 1, "coupling_runs": 1, "couplings": 0}
+
+    def viol(inv, msg):
+        viols.append({"property": "C05", "invariant": inv, "msg": msg, "features": ["coupling"], "input": [p["text"] for p in spec["pieces"]]})
+
+    def snapshot(mg):
+        m = mg._mol
+        return {"atoms": m.GetNumAtoms(), "bonds": m.GetNumBonds(), "nodes": mg.graph.number_of_nodes(), "edges": mg.graph.number_of_edges(),
+                "descs": len(mg.bond_descriptors), "mass": float(Descriptors.HeavyAtomMolWt(m)),
+                "elems": sorted(a.GetAtomicNum() for a in m.GetAtoms())}
+
+    with world:
+        try:
+            parts = []
+            for p in spec["pieces"]:
+                if "{" in p["text"]:
+                    parts.append(g.Molecule(p["text"]).generate(rng=np.random.default_rng(p["seed"])))
+                else:
+                    parts.append(g.SmilesToken(p["text"], 0, 0).generate())
+            base = g.SmilesToken(spec["core"], 0, 0).generate() if spec["core"] else parts.pop(0)
+        except SimAbort:
+            raise
+        except Exception as exc:
+            return {"harness_error": f"coupling workload could not be generated: {exc!r}", "violations": []}
+        for other in parts:
+            pair = None
+            for i, a in enumerate(base.bond_descriptors):
+                for j, b in enumerate(other.bond_descriptors):
+                    if a.is_compatible(b):
+                        pair = (i, j)
+                        break
+                if pair:
+                    break
+            if pair is None:
+                break
+            if spec.get("reverse") and len(parts) == 1:
+                base, other, pair = other, base, (pair[1], pair[0])
+            sa, sb = snapshot(base), snapshot(other)
+            at_a = base.bond_descriptors[pair[0]].atom_bonding_to
+            at_b = other.bond_descriptors[pair[1]].atom_bonding_to
+            try:
+                res = base.attach_other(pair[0], other, pair[1])
+            except SimAbort:
+                raise
+            except Exception as exc:
+                viol("coupling_raised", f"attach_other of two compatible open descriptors raised {exc!r}")
+                break
+            stats["couplings"] += 1
+            sr = snapshot(res)
+            if sr["atoms"] != sa["atoms"] + sb["atoms"] or sr["elems"] != sorted(sa["elems"] + sb["elems"]):
+                viol("partition", f"coupled molecule has {sr['atoms']} atoms, the parts have {sa['atoms']} + {sb['atoms']}")
+            if sr["bonds"] != sa["bonds"] + sb["bonds"] + 1:
+                viol("inter_residue_bonds", f"coupled molecule has {sr['bonds']} bonds, the parts have {sa['bonds']} + {sb['bonds']} (+1 expected)")
+            elif res._mol.GetBondBetweenAtoms(at_a, sa["atoms"] + at_b) is None:
+                viol("inter_residue_bonds", f"no bond between the two attachment atoms {at_a} and {sa['atoms'] + at_b} of the coupled parts")
+            if sr["nodes"] != sa["nodes"] + sb["nodes"] or sr["edges"] != sa["edges"] + sb["edges"] + 1 or not nx.is_tree(res.graph):
+                viol("residue_graph", f"MolGen.graph of the coupled molecule has {sr['nodes']} nodes / {sr['edges']} edges "
+                     f"(tree: {nx.is_tree(res.graph) if sr['nodes'] else False}); the parts have {sa['nodes']} / {sa['edges']} and {sb['nodes']} / {sb['edges']}")
+            if sr["descs"] != sa["descs"] + sb["descs"] - 2:
+                viol("open_list_update", f"{sr['descs']} open descriptors after coupling parts with {sa['descs']} and {sb['descs']}")
+            if abs(sr["mass"] - sa["mass"] - sb["mass"]) > 1e-6 or abs(float(res.weight) - sr["mass"]) > 1e-6:
+                viol("mass_sum", f"heavy-atom mass {sr['mass']} (accessor {float(res.weight)}) != {sa['mass']} + {sb['mass']}")
+            try:
+                m = res.mol
+                if len(Chem.GetMolFrags(m)) != 1:
+                    viol("connected", "coupled molecule has more than one fragment")
+            except Exception as exc:
+                viol("sanitise", f"coupled molecule does not pass sanitisation: {exc!r}")
+            if viols:
+                break
+            base = res
+    sig = hashlib.sha1(json.dumps(spec, sort_keys=True).encode()).hexdigest()
+    return {"violations": viols, "stats": stats, "sig": sig, "nontrivial": stats["couplings"] >= 1,
+            "sample": {"pieces": [p["text"] for p in spec["pieces"]], "core": spec["core"]}, "digest": world.digest(), "trace": None}
+
+
+def shrink_candidates(spec):
+    if spec.get("kind") == "coupling":
+        if len(spec["pieces"]) > 2:
+            for i in range(len(spec["pieces"])):
+                c = json.loads(json.dumps(spec))
+                del c["pieces"][i]
+                yield c
+        return
+    yield from gc.shrink_candidates(spec)
